@@ -530,6 +530,9 @@ var iterChecks = []iterCheck{
 			}
 			for _, h := range s.Heights {
 				want = append(want, fmt.Sprintf("%s %x=%x", s.Name, tmtypes.ProcessedTimeKey(h), sdk.Uint64ToBigEndian(processedTimeOf(h))))
+				// the iteration key written for the same height is client metadata as well (exported since the
+				// C13 tm-iteration-keys-not-exported fix); it must be read back for exactly this height
+				want = append(want, fmt.Sprintf("%s %x=%x", s.Name, tmtypes.IterationKey(h), host.ConsensusStateKey(h)))
 			}
 		}
 		var gen []clienttypes.IdentifiedClientState
